@@ -212,8 +212,11 @@ package mongokit
 //@   all(n, Str, imp(has(c.Indexes, n), wfIndex(c.Indexes[n]) && all(d, Ref, ghost.cov[c.Indexes[n]][d] == has(c.Documents.Index, d))))
 
 //@ func Match
-//@   trusted
+//@   tags C10
+//@   requires doc != nil && query != nil
 //@   modifies nothing
+//@   let r = pure.Process(mkstruct(S_mongokit_Context, TopLevelQueryOperators, ExpressionQueryOperators, false, false, spec.VNil, nil, smt("(mk.Sl 0 0 0 0)", "Sl")), doc, *query, "", true)
+//@   ensures [C10 name=verdict] imp(r == nil, result0 && err == nil) && imp(r == ErrNotMatched, !result0 && err == nil) && imp(r != nil && r != ErrNotMatched, !result0 && err == r)
 
 //@ func (*Index).Add
 //@   tags C15 C07
@@ -780,3 +783,92 @@ package mongokit
 //@     has(st.merge, path) && is(st.merge[path], VArr) &&
 //@     spec.isWindow(spec.arr(st.merge[path]), spec.arr(src), spec.countStart(len(spec.arr(src)), spec.sliceNum(v)), spec.countEnd(len(spec.arr(src)), spec.sliceNum(v))))
 //@   ensures [C14 name=not-array] imp(!is(src, VArr), has(st.merge, path) == old(has(st.merge, path)))
+
+// ---------------------------------------------------------------------------
+// process.go: a query document is an implicit conjunction - Process returns the
+// result of the first expression that does not match (or fails), nil if all match.
+// ProcessExpression (the dispatch through the operator tables, calls through
+// function values) is an abstract function of its arguments and the documents.
+// That holds for the operator tables of Match only (the update and extract
+// operators write into the document): every contract below is stated for a
+// context built from the query operator tables.
+//@ define matchCtx(ctx) = ctx.TopLevel == TopLevelQueryOperators && ctx.Expression == ExpressionQueryOperators
+//@ func ProcessExpression
+//@   trusted
+//@   pure docs
+//@   requires matchCtx(ctx)
+//@ func Process
+//@   tags C10
+//@   pure docs
+//@   requires matchCtx(ctx)
+//@   locals exp err
+//@   modifies nothing
+//@   ensures [C10 name=implicit-and] (result == nil) == forall(i, 0, len(query), imp(spec.witness(i), pure.ProcessExpression(ctx, doc, prefix, query[i], root) == nil))
+//@   ensures [C10 name=first-failure] imp(result != nil, exists(i, 0, len(query), spec.witness(i) && result == pure.ProcessExpression(ctx, doc, prefix, query[i], root) && forall(j, 0, i, imp(spec.witness(j), pure.ProcessExpression(ctx, doc, prefix, query[j], root) == nil))))
+//@   loop 0 invariant forall(j, 0, rangeindex + 1, imp(spec.witness(j), pure.ProcessExpression(ctx, doc, prefix, query[j], root) == nil)) && spec.witness(rangeindex + 1)
+
+// $and / $or / $nor over the abstract result of Process for each operand.
+//@ func matchAnd
+//@   tags C10
+//@   requires matchCtx(ctx)
+//@   locals array item query err ok
+//@   requires spec.wfVal(v)
+//@   modifies nothing
+//@   let ops = spec.arr(v)
+//@   ensures [C10 name=operand-must-be-nonempty-array] imp(!is(v, VArr) || len(ops) == 0, result != nil && result != ErrNotMatched)
+//@   ensures [C10 name=and-table] imp(is(v, VArr) && len(ops) > 0 && forall(i, 0, len(ops), is(ops[i], VDoc)), (result == nil) == forall(i, 0, len(ops), imp(spec.witness(i), pure.Process(ctx, doc, spec.doc(ops[i]), "", true) == nil)))
+//@   loop 0 invariant is(v, VArr) && forall(j, 0, rangeindex + 1, imp(spec.witness(j), is(array[j], VDoc) && pure.Process(ctx, doc, spec.doc(array[j]), "", true) == nil)) && spec.witness(rangeindex + 1)
+//@ func matchOr
+//@   tags C10
+//@   pure docs
+//@   requires matchCtx(ctx)
+//@   locals array item query err ok
+//@   requires spec.wfVal(v)
+//@   modifies nothing
+//@   let ops = spec.arr(v)
+//@   ensures [C10 name=operand-must-be-nonempty-array] imp(!is(v, VArr) || len(ops) == 0, result != nil && result != ErrNotMatched)
+//@   ensures [C10 name=or-table] imp(is(v, VArr) && len(ops) > 0 && forall(i, 0, len(ops), is(ops[i], VDoc) && (pure.Process(ctx, doc, spec.doc(ops[i]), "", true) == nil || pure.Process(ctx, doc, spec.doc(ops[i]), "", true) == ErrNotMatched)),
+//@     (result == nil) == exists(i, 0, len(ops), spec.witness(i) && pure.Process(ctx, doc, spec.doc(ops[i]), "", true) == nil) && (result == nil || result == ErrNotMatched))
+//@   loop 0 invariant is(v, VArr) && forall(j, 0, rangeindex + 1, imp(spec.witness(j), is(array[j], VDoc) && pure.Process(ctx, doc, spec.doc(array[j]), "", true) == ErrNotMatched)) && spec.witness(rangeindex + 1)
+//@ func matchNor$1
+//@   tags C10
+//@   requires spec.wfVal(v) && matchCtx(ctx)
+//@   ensures [C10] result == pure.matchOr(ctx, doc, name, path, v)
+//@ func matchNor
+//@   tags C10
+//@   requires spec.wfVal(v) && matchCtx(ctx)
+//@   let or = pure.matchOr(ctx, doc, name, path, v)
+//@   ensures [C10 name=exact-negation] (result == nil) == (or == ErrNotMatched) && (result == ErrNotMatched) == (or == nil)
+//@   ensures [C10 name=errors-pass] imp(or != nil && or != ErrNotMatched, result == or)
+// $not: matches as soon as one expression of the operand does not match; an
+// expression that fails passes its error on; all matching means "not matched".
+//@ func matchNot
+//@   tags C10
+//@   requires matchCtx(ctx)
+//@   locals query exp err ok
+//@   requires spec.wfVal(v)
+//@   modifies nothing
+//@   let q = spec.doc(v)
+//@   ensures [C10 name=operand-must-be-nonempty-document] imp(!is(v, VDoc) || len(q) == 0, result != nil && result != ErrNotMatched)
+//@   ensures [C10 name=not-table] imp(is(v, VDoc) && len(q) > 0, (result == ErrNotMatched) == forall(i, 0, len(q), imp(spec.witness(i), pure.ProcessExpression(ctx, doc, path, q[i], false) == nil)))
+//@   ensures [C10 name=matches-on-first-mismatch] imp(is(v, VDoc) && len(q) > 0 && result == nil, exists(i, 0, len(q), spec.witness(i) && pure.ProcessExpression(ctx, doc, path, q[i], false) == ErrNotMatched && forall(j, 0, i, imp(spec.witness(j), pure.ProcessExpression(ctx, doc, path, q[j], false) == nil))))
+//@   loop 0 invariant is(v, VDoc) && forall(j, 0, rangeindex + 1, imp(spec.witness(j), pure.ProcessExpression(ctx, doc, path, query[j], false) == nil)) && spec.witness(rangeindex + 1)
+
+// $push: a value that is not a document with $each is pushed whole; without
+// $position / $sort / $slice the new array is the old one (or the empty one for a
+// missing field) followed by the values, and that array is what is stored.
+//@ func applyPush
+//@   tags C11 C08
+//@   uses access order
+//@   let ch = asptr(ctx.Value, Changes)
+//@   let cur = old(spec.getPath(*doc, path))
+//@   let n0 = ite(cur == spec.VMissing, 0, len(spec.arr(cur)))
+//@   locals values arr newArr insertAt modifierForm hasPosition hasSort hasSlice
+//@   requires opCtx(ctx, doc) && spec.wfVal(v)
+//@   ensures [C11 name=target-must-be-array] imp(cur != spec.VMissing && !is(cur, VArr), err != nil)
+//@   ensures [C11 name=plain-value-is-pushed-whole] imp(err == nil && !modifierForm, len(values) == 1 && values[0] == v && !hasPosition && !hasSort && !hasSlice)
+//@   ensures [C11 name=stored-array] imp(err == nil && !hasPosition && !hasSort && !hasSlice, *doc == spec.putPath(old(*doc), path, spec.VArr(newArr), false))
+//@   ensures [C11 name=append-keeps-existing] imp(err == nil && !hasPosition && !hasSort && !hasSlice, len(newArr) == n0 + len(values) && forall(k, 0, n0, newArr[k] == spec.arr(cur)[k]) && forall(k, 0, len(values), newArr[n0 + k] == values[k]))
+//@   loop 0 invariant *doc == old(*doc) && nothingRecorded(ch)
+//@   loop 1 invariant *doc == old(*doc) && nothingRecorded(ch)
+//@   loop 2 invariant *doc == spec.putPath(old(*doc), path, spec.VArr(newArr), false)
